@@ -56,6 +56,7 @@ def run(ctx):
     succ = [t for t in rets if not (t[0] == "call" and t[1].endswith("::from_residual"))]
     cells_key = None
     fallback = None
+    fld_e, fld_d = "0", "1"
     nres = 0
     for t in succ:
         if is_variant(t, "Err"):
@@ -73,9 +74,11 @@ def run(ctx):
                 nres += 1
                 continue
             # fallback: element of the recorded vector
-            if a[0] == "field" and str(a[2]) == "0":
+            if a[0] == "field":
+                # (the estimate component of a recorded pair: slot 0 of a tuple or a named field of a private struct)
                 base = peel(a[1])
                 if base[0] == "call" and base[1].endswith("::index"):
+                    fld_e = a[2]
                     cells_key = ref_key(base[2][0]) or (("_%d" % peel(base[2][0])[1]) if peel(base[2][0])[0] == "escaped" else None)
                     fallback = (t, base)
                     continue
@@ -118,9 +121,13 @@ def run(ctx):
         okp = len(ps) == 1
         if okp:
             v = peel(ps[0].args[1])
-            okp = v[0] == "agg" and v[1] == "tuple" and len(v[3]) == 2
+            okp = v[0] == "agg" and v[1] in ("tuple", "adt") and len(v[3]) == 2
+            names_ = list(v[4]) if okp and v[4] and len(v[4]) == 2 else ["0", "1"]
+            ie = names_.index(str(fld_e)) if okp and str(fld_e) in names_ else None
+            okp = okp and ie is not None
             if okp:
-                e, dist = peel(v[3][0]), peel(v[3][1])
+                fld_d = names_[1 - ie]
+                e, dist = peel(v[3][ie]), peel(v[3][1 - ie])
                 okp = est_of(e) and dist[0] == "payload" and dist[2][0] == "call" and dist[2][1] == CONT \
                     and strip_site(peel(dist[2][2][0])) == strip_site(e) and dist[2][2][1] == ("param", 1)
         run.inst("C01.R3", "recorded-pairs", bool(okp), "the fallback list records (estimate, containment(estimate, query point)) for the same estimate", w)
@@ -136,7 +143,7 @@ def run(ctx):
                     x, y = peel(cmpc[0].args[0]), peel(cmpc[0].args[1])
 
                     def side(z):
-                        if z[0] == "field" and str(z[2]) == "1":
+                        if z[0] == "field" and str(z[2]) == str(fld_d):
                             b = peel(z[1])
                             if b[0] == "param":
                                 return b[1]
